@@ -11,7 +11,7 @@ from selftest.catalogue import CATALOGUE  # noqa: E402
 
 print('| seed | property | needs to manifest | caught by (rules) |')
 print('|------|----------|-------------------|-------------------|')
-for d in sorted(glob.glob(os.path.join(VERIF, 'seeded', '*'))):
+for d in sorted(glob.glob(os.path.join(VERIF, 'seeded', 'C*-*'))):
     m = json.load(open(os.path.join(d, 'meta.json')))
     ce = m.get('current_evaluation', {})
     print('| %s | %s | %s | %s (%s) |' % (m['seed'], m['property'], m['needs_to_manifest'],
